@@ -511,6 +511,9 @@ structure ReadResult where
   fmt : Nat := 0
   entries : List RB := []
   endSt : Status := .eof
+  /-- how many times the tar reader's `read_header` ran (it numbers the entries with a
+  process-wide counter, which keeps counting across archives) -/
+  calls : Nat := 0
   deriving Repr
 
 def ustarMagic : List Nat := [117, 115, 116, 97, 114]
@@ -519,28 +522,28 @@ def ustarMagic : List Nat := [117, 115, 116, 97, 114]
 `k` counts entries (for the synthetic `ino`); `fmt` is the format code so far.
 `partialRead`: stop after an entry larger than 1 MiB (harness `abort` mode). -/
 def tarRead (partialRead : Bool) (bs : List Nat) (k : Nat) (fmt : Nat) (acc : List RB) : ReadResult :=
-  if bs.length = 0 then ⟨fmt, acc.reverse, .eof⟩
-  else if bs.length < 512 then ⟨fmt, acc.reverse, .fatal⟩
+  if bs.length = 0 then ⟨fmt, acc.reverse, .eof, k + 1⟩
+  else if bs.length < 512 then ⟨fmt, acc.reverse, .fatal, k + 1⟩
   else
     let h := bs.take 512
     let rest := bs.drop 512
-    if isNullBlock h then ⟨fmt, acc.reverse, .eof⟩
-    else if !tarChecksumOk h then ⟨fmt, acc.reverse, .retry⟩
+    if isNullBlock h then ⟨fmt, acc.reverse, .eof, k + 1⟩
+    else if !tarChecksumOk h then ⟨fmt, acc.reverse, .retry, k + 1⟩
     else
       let tf := (slice h rd_typeflag_offset 1).headD 0
-      if tf = 65 ∨ tf = 103 ∨ tf = 75 ∨ tf = 76 ∨ tf = 86 ∨ tf = 88 ∨ tf = 120 then ⟨fmt, acc.reverse, .unmodelled⟩
-      else if slice h rd_magic_offset 8 = [117, 115, 116, 97, 114, 32, 32, 0] then ⟨fmt, acc.reverse, .unmodelled⟩
+      if tf = 65 ∨ tf = 103 ∨ tf = 75 ∨ tf = 76 ∨ tf = 86 ∨ tf = 88 ∨ tf = 120 then ⟨fmt, acc.reverse, .unmodelled, k + 1⟩
+      else if slice h rd_magic_offset 8 = [117, 115, 116, 97, 114, 32, 32, 0] then ⟨fmt, acc.reverse, .unmodelled, k + 1⟩
       else
         let isUstar := slice h rd_magic_offset 5 = ustarMagic
         let fmt := if isUstar then ARCHIVE_FORMAT_TAR_USTAR else ARCHIVE_FORMAT_TAR
         match ustarDecode h (!isUstar) with
-        | none => ⟨fmt, acc.reverse, .fatal⟩
+        | none => ⟨fmt, acc.reverse, .fatal, k + 1⟩
         | some (rb, remaining) =>
           let rb := { rb with dev := 1, ino := (k + 1 : Nat) }
-          if partialRead ∧ rb.size.getD 0 > 1048576 then ⟨fmt, (rb :: acc).reverse, .ok⟩ else
+          if partialRead ∧ rb.size.getD 0 > 1048576 then ⟨fmt, (rb :: acc).reverse, .ok, k + 1⟩ else
           let need := remaining + pad512 remaining
           if rest.length < need then
-            ⟨fmt, ({ rb with body := rest.take remaining, bodySt := .fatal } :: acc).reverse, .fatal⟩
+            ⟨fmt, ({ rb with body := rest.take remaining, bodySt := .fatal } :: acc).reverse, .fatal, k + 1⟩
           else if need = 0 then
             tarRead partialRead rest (k + 1) fmt ({ rb with body := [] } :: acc)
           else
@@ -577,11 +580,11 @@ def rdevSplit (rb : RB) (d : Nat) : RB :=
 /-- The cpio reader (odc and newc headers as written by the modelled writers). -/
 def cpioRead (partialRead newc : Bool) (bs : List Nat) (fmt : Nat) (tab : LinkTab) (acc : List RB) : ReadResult :=
   let hsz := if newc then newcr_header_size else odcr_header_size
-  if bs.length < hsz then ⟨fmt, acc.reverse, .fatal⟩ else
+  if bs.length < hsz then ⟨fmt, acc.reverse, .fatal, 0⟩ else
   let h := bs.take hsz
   let magicOk := if newc then (h.take 6 = [48, 55, 48, 55, 48, 49] ∧ h.all fun c => (hexVal c).isSome)
                  else (h.take 6 = [48, 55, 48, 55, 48, 55] ∧ h.all fun c => 48 ≤ c ∧ c ≤ 55)
-  if !magicOk then ⟨fmt, acc.reverse, .unmodelled⟩ else
+  if !magicOk then ⟨fmt, acc.reverse, .unmodelled, 0⟩ else
   let fmt := if newc then ARCHIVE_FORMAT_CPIO_SVR4_NOCRC else ARCHIVE_FORMAT_CPIO_POSIX
   let num (off sz : Nat) : Nat := if newc then cpioAtol16 (slice h off sz) 0 else cpioAtol8 (slice h off sz) 0
   let rb : RB := {}
@@ -608,25 +611,25 @@ def cpioRead (partialRead newc : Bool) (bs : List Nat) (fmt : Nat) (tab : LinkTa
        num odcr_filesize_offset odcr_filesize_size)
   let namepad := if newc then (2 + 4 - namelen % 4) % 4 else 0
   let rest := bs.drop hsz
-  if rest.length < namelen + namepad then ⟨fmt, acc.reverse, .fatal⟩ else
+  if rest.length < namelen + namepad then ⟨fmt, acc.reverse, .fatal, 0⟩ else
   let rb := { rb with path := cstr (rest.take namelen), size := some (filesize : Int) }
   let rest := rest.drop (namelen + namepad)
   let bodypad := if newc then pad4 filesize else 0
   -- symlink: the body is the target
   if rb.ftype = AE_IFLNK then
-    if filesize > 1048576 ∨ rest.length < filesize then ⟨fmt, acc.reverse, .fatal⟩ else
+    if filesize > 1048576 ∨ rest.length < filesize then ⟨fmt, acc.reverse, .fatal, 0⟩ else
     let rb := { rb with sym := cstr (rest.take filesize) }
     let rest := rest.drop filesize
     let (tab, rb) := recordHardlink tab rb
-    if rest.length < bodypad then ⟨fmt, ({ rb with bodySt := .fatal } :: acc).reverse, .fatal⟩ else
-    if hsz + namelen + namepad + filesize + bodypad = 0 then ⟨fmt, acc.reverse, .fatal⟩ else
+    if rest.length < bodypad then ⟨fmt, ({ rb with bodySt := .fatal } :: acc).reverse, .fatal, 0⟩ else
+    if hsz + namelen + namepad + filesize + bodypad = 0 then ⟨fmt, acc.reverse, .fatal, 0⟩ else
     cpioRead partialRead newc (rest.drop bodypad) fmt tab (rb :: acc)
-  else if namelen = 11 ∧ (cstr (bs.drop hsz |>.take namelen)) = trailerName then ⟨fmt, acc.reverse, .eof⟩
+  else if namelen = 11 ∧ (cstr (bs.drop hsz |>.take namelen)) = trailerName then ⟨fmt, acc.reverse, .eof, 0⟩
   else
     let (tab, rb) := recordHardlink tab rb
-    if partialRead ∧ filesize > 1048576 then ⟨fmt, (rb :: acc).reverse, .ok⟩ else
+    if partialRead ∧ filesize > 1048576 then ⟨fmt, (rb :: acc).reverse, .ok, 0⟩ else
     if rest.length < filesize + bodypad then
-      ⟨fmt, ({ rb with body := rest.take filesize, bodySt := .fatal } :: acc).reverse, .fatal⟩
+      ⟨fmt, ({ rb with body := rest.take filesize, bodySt := .fatal } :: acc).reverse, .fatal, 0⟩
     else
       cpioRead partialRead newc (rest.drop (filesize + bodypad)) fmt tab ({ rb with body := rest.take filesize } :: acc)
 termination_by bs.length
@@ -635,10 +638,11 @@ decreasing_by
   all_goals (have : 0 < hsz := by simp only [hsz]; split <;> decide)
   all_goals omega
 
-/-- Format auto-detection restricted to what the three writers produce. -/
-def readArchive (partialRead : Bool) (bs : List Nat) : ReadResult :=
+/-- Format auto-detection restricted to what the three writers produce; `k` = tar `read_header`
+calls made earlier in the process. -/
+def readArchive (partialRead : Bool) (bs : List Nat) (k : Nat := 0) : ReadResult :=
   if bs.take 6 = [48, 55, 48, 55, 48, 55] then cpioRead partialRead false bs ARCHIVE_FORMAT_CPIO_POSIX [] []
   else if bs.take 6 = [48, 55, 48, 55, 48, 49] then cpioRead partialRead true bs ARCHIVE_FORMAT_CPIO_SVR4_NOCRC [] []
-  else tarRead partialRead bs 0 ARCHIVE_FORMAT_TAR []
+  else tarRead partialRead bs k ARCHIVE_FORMAT_TAR []
 
 end LA.Codec
